@@ -500,7 +500,7 @@ void _mzd_trsm_upper_left(mzd_t const *U, mzd_t *B, const int cutoff) {
 
     _mzd_trsm_upper_left(U11, B1, cutoff);
 
-    _mzd_addmul(B0, U01, B1, cutoff);
+    mzd_addmul(B0, U01, B1, cutoff);
 
     _mzd_trsm_upper_left(U00, B0, cutoff);
 
